@@ -14,7 +14,10 @@ Idx == 1..Len(defs)
 Pending == {i \in Idx : defs[i].kind = "pending"}
 NamedIdx == {i \in Idx : defs[i].kind = "names"}
 ModsOf(i) == {defs[i].mods[j] : j \in 1..Len(defs[i].mods)}
-Assigned == UNION {ModsOf(i) : i \in NamedIdx}
+RegexIdx == {i \in Idx : defs[i].kind = "regex"}
+(* identifiers already given to some layer: listed names, and regex strings (a name that is    *)
+(* spelled exactly like an earlier layer's regex would put that module into two layers)        *)
+Assigned == UNION {ModsOf(i) : i \in NamedIdx \cup RegexIdx}
 Names == {defs[i].name : i \in Idx}
 
 ModLists == {<<m>> : m \in Mods} \cup {<<p[1], p[2]>> : p \in {q \in Mods \X Mods : q[1] # q[2]}}
